@@ -759,6 +759,8 @@ class NestedSequenceConverter(t.Generic[T, U], Converter[T]):
         return self._into_data(val)
 
     def _into_data(self, val: t.Any) -> DataType:
+        if getattr(val, 'ndim', None) == 0:
+            val = val.item()  # a 0-d array holds a single value (and can't be iterated)
         if data_is_iterable(val):
             return list(map(self._into_data, val))
         if self.val_type in (t.Any, t.cast(t.Type[t.Any], type(t.Any))):
